@@ -74,6 +74,10 @@ var RefreshOps = []string{"R", "R:t", "R:u", "R:t,u"}
 // OtherOps: client calls that are not metadata reads but touch the broker registry, and the passing of time
 var OtherOps = []string{"Coord:g", "T"}
 
+// UseOps: the application asks for a partition's leader and uses the broker it is handed (opens its connection). Explored in
+// a variant of its own: an open connection is one more bit of state per broker.
+var UseOps = []string{"Use:t:0", "Use:t:1"}
+
 // BackgroundEvery is Metadata.RefreshFrequency of the history layer (sarama's default).
 const BackgroundEvery = 10 * time.Minute
 
@@ -221,6 +225,19 @@ func RunHistory(t *testing.T, h *HistCase) *HistResult {
 					ref.Fold(&o.Resps[i])
 				}
 				note(where, o, nil)
+			} else if strings.HasPrefix(e.Op, "Use:") {
+				// the application asks for a partition's leader and USES the broker it is handed (opens its connection and
+				// waits for it): the read is judged like any other; the use itself is not a metadata call
+				c, _ := parseRead("Leader:" + e.Op[4:])
+				o, v := ReadJudged(client, s, ref, c.Op, c.Topic, c.Part)
+				note(where, o, v)
+				if o.Err == "" {
+					if b, err := client.Leader(c.Topic, c.Part); err == nil && b != nil { // (served from the cache now)
+						s.Accept(b.Addr()) // this endpoint is up (and stays up if the broker later moves to another address)
+						_ = b.Open(conf)
+						_, _ = b.Connected()
+					}
+				}
 			} else if strings.HasPrefix(e.Op, "Coord:") {
 				// Coordinator(group): not judged (not a metadata read), but the client registers the broker it is told
 				n0, c0 := s.Served(), len(s.CoordsFrom(0))
